@@ -201,6 +201,7 @@ def hBern : Handler := fun c => do
   let forB := fun (bb : Float) =>
     let zc := lbCsampleC TF eps p v bb
     objJ [("zc", floatJ zc), ("thr", floatJ (lbThreshold zc)),
+          ("zc_spec", floatJ (lbCsampleSpec TF eps l (clampProbs eps v) bb)),
           ("clog", optJ floatJ (lbClogProb TF l zc bb)), ("tlog", floatJ (lbTlogProb TF l bb)),
           ("logprob_zc", floatJ (lbLogProb TF l zc))]
   pure (objJ [("z", floatJ z), ("b", floatJ b), ("logprob", floatJ (lbLogProb TF l z)),
@@ -222,6 +223,7 @@ def hGumbel : Handler := fun c => do
   pure (objJ [("z", listJ floatJ z), ("b", listJ floatJ b), ("logprob", floatJ (gLogProb TF ls z)),
     ("tlog", floatJ (gTlogProb ls b)), ("clog", optJ floatJ (gClogProb TF ls z b)),
     ("zc", listJ floatJ zc), ("thr_zc", listJ floatJ (gThreshold zc)),
+    ("zc_spec", listJ floatJ (gCsampleSpec TF eps ls (vs.map (clampProbs eps)) bk)),
     ("clog_zc", optJ floatJ (gClogProb TF ls zc bk)), ("tlog_k", floatJ (gTlogProb ls bk)),
     ("logprob_zc", floatJ (gLogProb TF ls zc))])
 
